@@ -22,9 +22,36 @@ def _weight(I, amount, dur, denom='lp'):
     return I.try_call('calculate_weight', [Ref(cell, 0), dur], CR)
 
 
+def _replay_weight(label, m):
+    """native: a farm manager configured to allow the model's duration; a position of `amount` with that duration is created through the public message;
+    the weight the contract records for the next epoch must lie in [amount, 16 x amount] -- or the position is refused"""
+    from .pm import coin_j, rj
+    a, d = m['amount'], m['duration']
+    if a == 0:
+        return None
+    cfg = {'min_unlocking_duration': min(d, 86400), 'max_unlocking_duration': max(d, 31556926)}
+    steps = [{'op': 'mint', 'to': 'alice', 'funds': [coin_j(LP1, a)]},
+             {'op': 'execute', 'contract': 'farm_manager', 'sender': 'alice', 'funds': [coin_j(LP1, a)],
+              'msg': {'manage_position': {'action': {'create': {'identifier': None, 'unlocking_duration': d, 'receiver': None}}}}},
+             {'op': 'get_weight', 'addr': 'alice', 'denom': rj(LP1), 'epoch': '1'}]
+    sc = {'setup': {'time_nanos': '0', 'epoch': {'genesis': '0', 'duration': '86400'}, 'farm': cfg}, 'steps': steps}
+
+    def judge(out):
+        tx, w = out['results'][1], out['results'][2]
+        if 'ok' not in tx:
+            return False, 'position refused natively'
+        wv = int(w['ok']) if w.get('ok') not in (None, 'null') else None
+        if wv is None:
+            return False, 'no weight recorded'
+        if wv > 16 * a or wv < a:
+            return True, 'a position of %d LP locked for %d s is accepted and weighs %d, outside [amount, 16 x amount] = [%d, %d]' % (a, d, wv, a, 16 * a)
+        return False, 'native weight %d within bounds' % wv
+    return sc, judge
+
+
 @obligation('C10', 'K1.weight_bounds', entries=['calculate_weight'], kind='K',
             statement='for durations in [1 day, 1 year]: Ok(w) with amount <= w <= 16*amount; outside the range: Err(InvalidWeight); never a panic for amounts < 2^128',
-            bounds='amount full u128, duration full u64', covers=['ok', 'err_range'])
+            bounds='amount full u128, duration full u64', covers=['ok', 'err_range'], replay=_replay_weight)
 def k1(I):
     I.set_hint(HINT)
     a = I.sym('amount', bits=128)
